@@ -11,7 +11,7 @@ shift
 git -C /tmp/scr-repo checkout -q -- .
 [ -n "$patch" ] && git -C /tmp/scr-repo apply "$patch"
 mkdir -p /tmp/scr-sim/.cargo /tmp/scr-verif
-rsync -a --delete /verif/sim/src/ /tmp/scr-sim/src/
+[ -n "$SCR_NOSYNC" ] || rsync -a --delete /verif/sim/src/ /tmp/scr-sim/src/
 cp /verif/sim/Cargo.lock /tmp/scr-sim/Cargo.lock
 sed 's#path = "/repo"#path = "/tmp/scr-repo"#' /verif/sim/Cargo.toml > /tmp/scr-sim/Cargo.toml
 printf '[net]\noffline = true\n[build]\ntarget-dir = "target"\n' > /tmp/scr-sim/.cargo/config.toml
